@@ -775,6 +775,9 @@ def seq_check(prop, tier, seed, t0, spec=None):
     extra_cov = {}
     if spec.get("extra_check"):
         extra_viols, extra_cov = spec["extra_check"](spec, scripts, real, variant, tier)
+    sv, scov = stretch_probe(ops, kinds, variant, tier)
+    extra_viols = list(extra_viols) + sv
+    extra_cov = dict(extra_cov, **scov)
 
     mismatches = []
     viol_scripts = []
@@ -985,6 +988,131 @@ def replay_pipeline(prop, path, payload):
 
 
 BIG = ["18446744073709551615", "18446744073709551614", "9223372036854775808", "9223372036854775807", "4294967296"]
+
+
+def _groups(trace):
+    """the crate's trace, one group of tokens per script move (a move's own token starts with '>')"""
+    gs = []
+    for tok in trace.split():
+        if tok.startswith(">") or not gs:
+            gs.append([tok])
+        else:
+            gs[-1].append(tok)
+    return gs
+
+
+def _period(tokens):
+    """the longest region of the token list that repeats with some period p: (start, p, cycles)"""
+    best = None
+    n = len(tokens)
+    for p in range(2, 61):
+        i = 0
+        while i + 2 * p <= n:
+            if tokens[i:i + p] == tokens[i + p:i + 2 * p]:
+                j = i
+                while j + 2 * p <= n and tokens[j:j + p] == tokens[j + p:j + 2 * p]:
+                    j += p
+                cycles = (j - i) // p + 1
+                if cycles >= 4 and (best is None or cycles * p > best[2] * best[1]):
+                    best = (i, p, cycles)
+                i = j + p
+            else:
+                i += 1
+    return best
+
+
+STRETCH_EXTRA = [
+    # flatten switching to a new inner every round (the same inner value emitted again each time)
+    "op=flatten env=std subs=1 | S0 h0 r r " + "d0/1 h2 r r t2 r " * 6 + "d0/1 h2 r r t0 r d2/7 r d2/8 r t2 r",
+    # a share sink that comes and goes
+    "op=share sinks=2 env=std subs=1 | S0 h0 r r " + "S1 r d0/1 r r T1 r " * 6 + "d0/2 r t0 r",
+]
+
+
+def stretch_probe(ops, kinds, variant, tier):
+    """Histories far longer than the model can be run on (its numbers are unary): a periodic history of the long
+    corpus is stretched to about 70 000 (thorough: 400 000) repetitions of its period and run on the crate.  The
+    models are stationary (no component counts without bound, take/skip aside, whose counts are chosen beyond the
+    length), so every repetition after the first must produce the tokens of the second one and the end of the history the tokens of
+    the unstretched run (which IS compared with the model).  A difference is a counter that wraps (2^8, 2^16) or a
+    structure that degrades; the extracted monitors then judge the condensed trace (first period, the deviating
+    period, the end)."""
+    target = 70000 if tier == "quick" else 400000
+    cands = [l.strip() for l in open(V + "/corpus/03_long.txt") if l.strip() and not l.startswith("#")] + STRETCH_EXTRA
+    viols, ran, reps = [], 0, 0
+    for line in cands:
+        op = header_op(line)
+        if op not in ops or op in ("scan", "interval", "from_iter"):
+            continue    # their payloads count (accumulator, tick number) or the history is in the header
+        hdr, _, body = line.partition("|")
+        if op in ("take", "skip"):
+            hdr = re.sub(r"n=\d+", "n=3" if op == "skip" else "n=%d" % (10 ** 12), hdr)
+        toks = body.split()
+        per = _period(toks)
+        if not per:
+            continue
+        start, p, cycles = per
+        prefix, cycle, suffix = toks[:start], toks[start:start + p], toks[start + cycles * p:]
+        data_per_cycle = max(1, sum(1 for t in cycle if t[0] in "dkS"))
+        short = "%s| %s" % (hdr, " ".join(prefix + cycle * 3 + suffix))
+        rs = run_real([short], variant)[0]
+        # the lengths: around the powers of two where a narrow counter wraps (counted in periods and in data), and long
+        Ns = sorted(set(([max(8, target // data_per_cycle)] if tier != "quick" else []) +
+                        [max(8, (w + d) // c) for w in (256, 65536) for d in (-1, 0, 1) for c in (1, data_per_cycle)]))
+        # script moves ('r' included) map one to one onto groups only for moves that print a '>' token; count them
+        def nmoves(ts):
+            return sum(1 for t in ts if t != "r")
+        longs = parallel_map(lambda N: run_real(["%s| %s" % (hdr, " ".join(prefix + cycle * N + suffix))], variant)[0], Ns)
+        for N, rl in zip(Ns, longs):
+            ran += 1
+            reps += N
+            gs = _groups(rs)
+            a, m, z = nmoves(prefix), nmoves(cycle), nmoves(suffix)
+            if len(gs) == a + m * 3 + z and gs[a + m:a + 2 * m] == gs[a + 2 * m:a + 3 * m]:
+                # fast path: the stretched trace is the unstretched one with its period repeated (the first
+                # repetition may differ: skip lets nothing through at first)
+                flat = lambda g: " ".join(t for x in g for t in x)
+                parts = [flat(gs[:a + 2 * m])] + [flat(gs[a + m:a + 2 * m])] * (N - 2) + ([flat(gs[a + 3 * m:])] if z else [])
+                if " ".join(x for x in parts if x) == rl.strip():
+                    continue
+            gl = _groups(rl)
+            if len(gl) != a + m * N + z or len(gs) != a + m * 3 + z:
+                first_bad, what = 0, "the stretched history was not performed move by move"
+            else:
+                first_bad, what = None, None
+                ref = gl[a + m:a + 2 * m]
+                for k in range(2, N):
+                    if gl[a + k * m:a + (k + 1) * m] != ref:
+                        first_bad, what = k, "repetition %d of the period answers differently from repetition 1" % k
+                        break
+                if first_bad is None and gl[a + m * N:] != gs[a + m * 3:]:
+                    first_bad, what = N, "the end of the history after %d repetitions differs from the end after 3" % N
+                if first_bad is None and gl[:a + 2 * m] != gs[:a + 2 * m]:
+                    first_bad, what = 0, "the beginning differs"
+            if first_bad is None:
+                continue
+            # condensed history for the monitors: beginning, one regular period, the deviating period, the end
+            k = min(first_bad, N - 1)
+            cond_script = "%s| %s" % (hdr, " ".join(prefix + cycle * 3 + suffix))
+            cond_groups = gl[:a + 2 * m] + gl[a + k * m:a + (k + 1) * m] + gl[a + m * N:]
+            cond_trace = " ".join(t for g in cond_groups for t in g)
+            try:
+                vs, _ = monitor([cond_script], [cond_trace])[0]
+            except Fail:
+                vs = []
+            bad = [v for v in vs if any(v.startswith(kd) for kd in kinds)]
+            detail = dict(what=what, period=" ".join(cycle), repetitions=N, first_deviating_repetition=first_bad,
+                          tokens_of_repetition_1=" ".join(t for g in gl[a + m:a + 2 * m] for t in g),
+                          tokens_of_deviating_repetition=" ".join(t for g in gl[a + k * m:a + (k + 1) * m] for t in g),
+                          end_after_stretch=" ".join(t for g in gl[a + m * N:] for t in g),
+                          end_unstretched=" ".join(t for g in gs[a + m * 3:] for t in g),
+                          monitors_on_condensed_trace=vs,
+                          replay="prefix + period x repetitions + suffix on the crate: harness seq",
+                          prefix=" ".join(prefix), suffix=" ".join(suffix), header=hdr.strip())
+            viols.append(("%s| <%d repetitions of: %s>" % (hdr, N, " ".join(cycle)),
+                          (bad[0] if bad else "long-history:nfi"), detail))
+            break
+    return viols, dict(long_history_probe=dict(histories=ran, period_repetitions_run_on_the_crate=reps))
 
 
 def big_count_probe():
@@ -1378,10 +1506,23 @@ def thread_check(prop, tier, seed, t0, syss, kinds, real_only=()):
             nth = int(re.search(r"th=(\d+)", cfg).group(1))
             sched = ",".join(str(rnd.randrange(nth)) for _ in range(rnd.randrange(8, 70)))
             free_lines.append("%s free=1 sched=%s" % (cfg, sched))
+    # free=2: a copy of a payload is a scheduling point as well (combine copies its tuple between two accesses of
+    # `vals`): no model has that point, the extracted checks judge the crate's trace alone
+    free2_lines = []
+    for sysname in [x for x in list(syss) + list(real_only) if "combine" in x]:
+        cfgs = THREAD_EXPLORE[sysname]
+        for k in range(nfree // 2):
+            cfg = cfgs[k % len(cfgs)]
+            nth = int(re.search(r"th=(\d+)", cfg).group(1))
+            sched = ",".join(str(rnd.randrange(nth)) for _ in range(rnd.randrange(8, 90)))
+            free2_lines.append("%s free=2 sched=%s" % (cfg, sched))
+    ro_lines += free2_lines
     # take, merge and combine have an interleaving model at that granularity (ThreadsFine.v): their free runs are
     # compared with the model event by event like the others
     def fine_model(l):
         return "free=1" in l and re.search(r"sys=(take|merge|combine) ", l) is not None
+    ro_lines += [l for l in lines if "free=2" in l]
+    lines = [l for l in lines if "free=2" not in l]
     lines += [l for l in free_lines if fine_model(l)]
     ro_lines += [l for l in lines if "free=1" in l and not fine_model(l)]
     ro_lines += [l for l in free_lines if not fine_model(l)]
@@ -1474,6 +1615,7 @@ def thread_check(prop, tier, seed, t0, syss, kinds, real_only=()):
         real_exhaustive_schedule_prefixes=dict(length=L, runs=n_exh),
         real_only_runs=len(ro_lines), free_schedule_runs_with_talkback_cell_scheduling_points=len(free_lines),
         free_schedule_runs_compared_with_the_fine_model=len([l for l in lines if fine_model(l)]),
+        runs_with_payload_copies_as_scheduling_points=len(free2_lines),
         source_files_differing_from_pinned_tree=changed, components_searched_deeper=hot,
         hooked_build_sequential_scripts=len(seq_scripts), hooked_build_sequential_mismatches=len(seq_mis),
         samples=[dict(script=a, crate_trace=h) for a, h in list(zip(lines, real))[:2] + list(zip(lines, real))[-2:]],
